@@ -241,6 +241,12 @@ def run_rule(ctx, rule_name, tier, part, parts):
         element = elements[0] if origin == "w" else elements[n % len(elements)]
         if element == "metadata":
             continue  # judged separately below against 'at most one child'
+        if len(seq) <= 2 and len(elements) > 1:
+            # the element-to-rule mapping is part of the configuration: every element mapped to the rule gets the short sequences
+            for other in elements:
+                if other != element and other != "metadata":
+                    judge(ctx, rule_name, other, seq, expected, stats)
+                    ctx.count("short_sequences_on_other_mapped_elements")
         out = judge(ctx, rule_name, element, seq, expected, stats, reuse=((n // 6) % 3 == 0))
         if n % 101 == 0:
             ctx.later(lambda c, r=rule_name, e=element, s_=seq, x=expected: judge(c, r, e, s_, x))
